@@ -46,7 +46,7 @@ def dump_resolver(fn):
         return None
     try:
         sig = inspect.signature(fn)
-    except ValueError:
+    except (ValueError, TypeError):      # TypeError: not a callable at all
         return {"uninspectable": True, "params": []}
     return {"uninspectable": False,
             "params": [{"name": p.name, "kind": PARAM_KINDS[p.kind.name], "has_default": p.default is not inspect.Parameter.empty}
@@ -73,6 +73,7 @@ def dump_field(f, resolvers=False):
     }
     if resolvers:
         d["resolver"] = dump_resolver(f.resolver)
+        d["subscription_resolver"] = dump_resolver(getattr(f, "subscription_resolver", None))
         for a, da in zip(f.arguments, d["args"]):
             da["python_name"] = a.python_name
     return d
